@@ -2,61 +2,145 @@
 
    Executable definitions only (used by every sampler model through
    decide_accept); their correctness w.r.t. Coq's real exp is proved in
-   Proofs/ExpBoundsProofs.v.
+   Proofs/ExpBoundsProofs.v and restated in Properties/AcceptBounds.v.
 
-   exp_lo d <= e^d <= exp_hi d   for d <= 0:
-     range reduction  e^d = (e^(d/2^k))^(2^k)  with |d|/2^k <= 1/8,
-     Taylor partial sums of odd (lower) / even (upper) degree on [-1/8, 0],
-     repeated squaring with outward rounding to the grid 2^-100.
+   exp_lo_p N j d <= e^d <= exp_hi_p N j d   for d <= 0, in fixed point on the
+   grid 2^-N (numbers are integer mantissas a, meaning a / 2^N):
+     range reduction  e^d = (e^(d/2^k))^(2^k)  with |d|/2^k <= 1/8 (halvings),
+       d/2^k rounded down / up to the grid (red),
+     Taylor partial sums of odd degree 2j+1 (lower) / even degree 2j+2 (upper)
+       in Horner form, every product rounded outwards (hz),
+     repeated squaring with outward rounding (sqd / squ).
+   All roundings are shifts or divisions by small numbers, which is what keeps
+   vm_compute fast (Z arithmetic in the VM is bit-serial: a 100-bit product
+   costs about 0.3 ms, a 32-bit one 0.03 ms).
+
+   exp_lo / exp_hi are the N = 100, degree 9 / 10 instance (about 6 ms per pair).
+   decide_accept tries N = 32 first (0.6 ms), then 64, then 100; a later tier
+   is consulted only if u falls inside the gap of the earlier one.
 *)
-From Coq Require Import QArith ZArith Qround Qabs List.
+From Coq Require Import QArith ZArith List.
 Import ListNotations.
 Open Scope Q_scope.
 
-Definition grid : positive := 2 ^ 100.
+(* 2^N as a positive *)
+Definition two_p (N : nat) : positive := Nat.iter N xO xH.
 
-Definition Qdown (x : Q) : Q := Qfloor (x * (Zpos grid # 1)) # grid.
-Definition Qup (x : Q) : Q := Qceiling (x * (Zpos grid # 1)) # grid.
-
-(* sum_{k=0}^{n} x^k / k!  by Horner:  1 + x/1 (1 + x/2 (1 + ... (1 + x/n))) *)
-Fixpoint horner (n : nat) (i : positive) (x : Q) : Q :=
-  match n with
-  | O => 1
-  | S n' => 1 + (x / (Zpos i # 1)) * horner n' (Pos.succ i) x
+(* p = 2^t * q with q odd *)
+Fixpoint tz (p : positive) : nat * positive :=
+  match p with
+  | xO p' => let (t, q) := tz p' in (S t, q)
+  | _ => (O, p)
   end.
 
-Definition taylor (n : nat) (x : Q) : Q := horner n 1%positive x.
-
-Definition exp_lo_small (x : Q) : Q := taylor 9 x.   (* odd degree: lower bound on x <= 0 *)
-Definition exp_hi_small (x : Q) : Q := taylor 10 x.  (* even degree: upper bound on x <= 0 *)
-
-Fixpoint sq_down (k : nat) (y : Q) : Q :=
-  match k with O => y | S k' => sq_down k' (Qdown (y * y)) end.
-Fixpoint sq_up (k : nat) (y : Q) : Q :=
-  match k with O => y | S k' => sq_up k' (Qup (y * y)) end.
-
-(* number of halvings k with |d| / 2^k <= 1/8 *)
+(* number of halvings k with |d| / 2^k <= 1/8 (from bit lengths: no division) *)
 Definition halvings (d : Q) : nat :=
-  Z.to_nat (Z.log2_up (Qceiling (Qabs d * 8))).
+  Z.to_nat (Z.log2 (Z.abs (Qnum d)) + 4 - Z.log2 (Zpos (Qden d))).
 
-Definition pow2' (k : nat) : Q := Z.pow 2 (Z.of_nat k) # 1.
+Definition pow2' (k : nat) : Q := Zpos (two_p k) # 1.
 
-Definition reduce (d : Q) : Q := Qred (d / pow2' (halvings d)).
+(* the reduced argument d / 2^k as an exact rational (specification only) *)
+Definition reduce (d : Q) : Q := d / pow2' (halvings d).
+
+(* floor (a / 2^N) *)
+Definition shr (N : nat) (a : Z) : Z := Z.shiftr a (Z.of_nat N).
+
+(* fixed-point Horner for sum_{m=0}^{n} X^m / m!  at  X = x / 2^N <= 0:
+     h = 1 + (X / i) * h'   with the product rounded down (up = false) or
+   strictly up (up = true); since X <= 0 the inner sum is taken with the
+   opposite rounding. *)
+Fixpoint hz (N : nat) (up : bool) (n : nat) (i : positive) (x : Z) : Z :=
+  match n with
+  | O => Zpos (two_p N)
+  | S n' =>
+      let p := shr N (x * hz N (negb up) n' (Pos.succ i) x) in
+      (Zpos (two_p N) + (if up then (p + 1) / Zpos i + 1 else p / Zpos i))%Z
+  end.
+
+(* k squarings, rounded down / strictly up *)
+Fixpoint sqd (N k : nat) (a : Z) : Z :=
+  match k with O => a | S k' => sqd N k' (shr N (a * a)) end.
+Fixpoint squ (N k : nat) (a : Z) : Z :=
+  match k with O => a | S k' => squ N k' (shr N (a * a) + 1)%Z end.
+
+(* mantissas (xl, xh) with  xl/2^N <= d/2^k <= xh/2^N <= 0   (d <= 0).
+   The power of two in the denominator of d is split off first so that for
+   dyadic d (floats) the division is by 1. *)
+Definition red (N k : nat) (d : Q) : Z * Z :=
+  let (t, q) := tz (Qden d) in
+  let s := (t + k)%nat in
+  let n := Qnum d in
+  if (s <=? N)%nat then
+    let fl := (Z.shiftl n (Z.of_nat (N - s)) / Zpos q)%Z in
+    (fl, Z.min 0 (fl + 1))
+  else
+    let num := Z.shiftr n (Z.of_nat (s - N)) in
+    ((num / Zpos q)%Z, Z.min 0 ((num + 1) / Zpos q + 1)).
+
+(* (lower, upper) enclosure of e^d for d <= 0 *)
+Definition exp_enc (N j : nat) (d : Q) : Q * Q :=
+  let k := halvings d in
+  let (xl, xh) := red N k d in
+  (sqd N k (Z.max 0 (hz N false (2 * j + 1) 1 xl)) # two_p N,
+   squ N k (hz N true (2 * j + 2) 1 xh) # two_p N).
+
+Definition exp_lo_p (N j : nat) (d : Q) : Q := fst (exp_enc N j d).
+Definition exp_hi_p (N j : nat) (d : Q) : Q := snd (exp_enc N j d).
 
 (* for d <= 0 *)
-Definition exp_lo (d : Q) : Q :=
-  sq_down (halvings d) (Qdown (exp_lo_small (reduce d))).
-Definition exp_hi (d : Q) : Q :=
-  sq_up (halvings d) (Qup (exp_hi_small (reduce d))).
+Definition exp_lo : Q -> Q := exp_lo_p 100 4.
+Definition exp_hi : Q -> Q := exp_hi_p 100 4.
 
 Definition Qlt_bool (a b : Q) : bool := negb (Qle_bool b a).
 
+(* precision tiers (N, j) tried in turn *)
+Definition tiers : list (nat * nat) := [(32, 2); (64, 4); (100, 4)]%nat.
+
+(* d <= 0 *)
+Definition decide_p (N j : nat) (u d : Q) : option bool :=
+  let (lo, hi) := exp_enc N j d in
+  if Qlt_bool u lo then Some true
+  else if Qlt_bool hi u then Some false
+  else None.
+
+Fixpoint decide_tiers (ts : list (nat * nat)) (u d : Q) : option bool :=
+  match ts with
+  | [] => None
+  | (N, j) :: ts' =>
+      match decide_p N j u d with
+      | Some b => Some b
+      | None => decide_tiers ts' u d
+      end
+  end.
+
 (* decide  u < e^d  (equivalently u <= e^d: the two differ only inside the gap,
    where no answer is given).
-     Some true  -> u < e^d        Some false -> e^d < u        None -> undecided *)
+     Some true  -> u < e^d        Some false -> e^d < u        None -> undecided
+   For d > 0 only u < 1 is answered; decide_accept_any handles both signs. *)
 Definition decide_accept (u d : Q) : option bool :=
   if Qle_bool 0 d then
     (if Qlt_bool u 1 then Some true else None)
-  else if Qlt_bool u (exp_lo d) then Some true
-  else if Qlt_bool (exp_hi d) u then Some false
+  else decide_tiers tiers u d.
+
+(* d > 0:  u < e^d  <=>  u * e^(-d) < 1 *)
+Definition decide_pos_p (N j : nat) (u d : Q) : option bool :=
+  let (lo, hi) := exp_enc N j (- d) in
+  if Qlt_bool (u * hi) 1 then Some true
+  else if Qlt_bool 1 (u * lo) then Some false
   else None.
+
+Fixpoint decide_pos_tiers (ts : list (nat * nat)) (u d : Q) : option bool :=
+  match ts with
+  | [] => None
+  | (N, j) :: ts' =>
+      match decide_pos_p N j u d with
+      | Some b => Some b
+      | None => decide_pos_tiers ts' u d
+      end
+  end.
+
+(* same contract as decide_accept, for either sign of d *)
+Definition decide_accept_any (u d : Q) : option bool :=
+  if Qle_bool d 0 then decide_tiers tiers u d
+  else if Qle_bool u 0 then Some true
+  else decide_pos_tiers tiers u d.
